@@ -107,15 +107,28 @@ def pparam(p, kmap=None):
     return str(p)
 
 
+def lit_param(p):
+    """parameters already on the molecule: strings; numbers are tagged so that they come back as numbers"""
+    if isinstance(p, str):
+        return p
+    if isinstance(p, (int, float, np.integer, np.floating)) and not isinstance(p, bool):
+        return 'F:' + repr(float(p))
+    return 'R:' + repr(p)
+
+
+def unlit_param(p):
+    return float(p[2:]) if p.startswith('F:') else p
+
+
 def enc_mol(mol, with_inters=True):
     nodes = [[n, pattrs(simple_attrs(mol.nodes[n])), mod_names(mol.nodes[n])] for n in mol.nodes]
     edges = [[u, v] for u, v in mol.edges]
-    meta = pattrs(mol.meta)
+    meta = pattrs(simple_attrs(mol.meta))
     inters = []
     if with_inters:
         for ty, lst in mol.interactions.items():
             for i in lst:
-                inters.append([ty, list(i.atoms), [str(p) for p in i.parameters], pattrs(i.meta)])
+                inters.append([ty, list(i.atoms), [lit_param(p) for p in i.parameters], pattrs(i.meta)])
     return nodes, edges, meta, inters, sorted(mol.citations)
 
 
@@ -279,24 +292,40 @@ def o_fits(mol, link, pl):
 
 
 def o_all_placements(mol, link, cap=60000):
-    """brute force over injections restricted per link node to the atoms satisfying its conditions"""
+    """brute force over injections, restricted per link node to the atoms satisfying its conditions
+    and pruned as soon as a bond / absent bond among the atoms placed so far is violated; every
+    complete candidate is then judged by o_fits (the full statement)"""
     if not o_attrs_ok(mol.meta, link.molecule_meta):
         return []
     names = list(link.nodes)
     cands = [[m for m in mol.nodes if o_atom_ok(mol.nodes[m], link.nodes[n])] for n in names]
-    size = 1
-    for c in cands:
-        size *= max(len(c), 1)
-    if size > cap:
+    out, steps = [], [0]
+
+    def rec(i, pl):
+        if i == len(names):
+            r = o_fits(mol, link, pl)
+            if r is None:
+                raise ZeroDivisionError
+            if r:
+                out.append(dict(pl))
+            return
+        for c in cands[i]:
+            steps[0] += 1
+            if steps[0] > cap:
+                raise OverflowError
+            if c in pl.values():
+                continue
+            if any(link.has_edge(names[j], names[i]) != mol.has_edge(pl[names[j]], c) for j in range(i)):
+                continue
+            pl[names[i]] = c
+            rec(i + 1, pl)
+            del pl[names[i]]
+    try:
+        rec(0, {})
+    except OverflowError:
         return 'too-large'
-    out = []
-    for combo in itertools.product(*cands):
-        pl = dict(zip(names, combo))
-        r = o_fits(mol, link, pl)
-        if r is None:
-            return 'raises'
-        if r:
-            out.append(pl)
+    except ZeroDivisionError:
+        return 'raises'
     return out
 
 
@@ -330,6 +359,23 @@ def close(a, b):
 # ----------------------------------------------------------------------------
 # running the real code
 # ----------------------------------------------------------------------------
+def clone(mol, ff=None):
+    """independent copy of a molecule (node dictionaries, interaction lists and metas are copied;
+    the force field is shared or replaced)"""
+    new = Molecule(force_field=ff if ff is not None else mol._force_field)
+    new.meta = dict(mol.meta)
+    for n in mol.nodes:
+        new.add_node(n)
+        new.nodes[n].update(mol.nodes[n])
+    new.add_edges_from(mol.edges)
+    for ty, lst in mol.interactions.items():
+        new.interactions[ty] = [i._replace(atoms=tuple(i.atoms), parameters=list(i.parameters), meta=dict(i.meta))
+                                for i in lst]
+    new.citations = set(mol.citations)
+    new.nrexcl = mol.nrexcl
+    return new
+
+
 def real_match(mol, link):
     names = list(link.nodes)
     try:
@@ -367,9 +413,7 @@ def real_state(mol):
     inters = []
     for ty, lst in mol.interactions.items():
         for i in lst:
-            inters.append([ty, list(i.atoms), [p if isinstance(p, (str, float)) else
-                                               (float(p) if isinstance(p, (np.floating,)) else str(p))
-                                               for p in i.parameters], pattrs(i.meta)])
+            inters.append([ty, list(i.atoms), [unlit_param(lit_param(p)) for p in i.parameters], pattrs(i.meta)])
     return canon_state(nodes, edges, inters, sorted(mol.citations))
 
 
@@ -380,7 +424,7 @@ def run_links(mol):
     orig = do_links.match_link
 
     def wrapper(molecule, link):
-        snap_mol = copy.deepcopy(molecule)
+        snap_mol = clone(molecule)
         try:
             snaps.append(list(orig(snap_mol, link)))
         except Exception:
@@ -421,7 +465,7 @@ def model_state(s, positions):
                     val = '{value:{format}}'.format(value=val, format=fmt)
                 ps.append(val)
             else:
-                ps.append(p)
+                ps.append(unlit_param(p))
         out.append([ty, atoms, ps, meta])
     return canon_state(nodes, edges, out, cites)
 
@@ -1002,11 +1046,11 @@ def apply_case(cid, mol, links, lines, pending):
     except Unsupported:
         chk.count('skipped_unsupported_value')
         return
-    before = copy.deepcopy(mol)
+    before = clone(mol)
     positions = {n: mol.nodes[n].get('position') for n in mol.nodes}
-    work = copy.deepcopy(mol)
-    work._force_field = ForceField(name='verif_c05_run')
-    work._force_field.links = links
+    run_ff = ForceField(name='verif_c05_run')
+    run_ff.links = links
+    work = clone(mol, run_ff)
     err, used, snaps = run_links(work)
     given = [canon_placements_in_order(u, names) for u, (_, names) in zip(used, els)]
     given += [[] for _ in range(len(links) - len(given))]
@@ -1173,8 +1217,8 @@ def link_stream():
     finish_apply_cases(alines, apending)
 
 
-order_cases()
 link_stream()
+order_cases()
 if chk.thorough:
     import c05_real
     c05_real.run(chk, globals())
